@@ -21,6 +21,11 @@ import DateutilVerif.Proofs.RRuleSecondlyBS
 import DateutilVerif.Proofs.RRuleMinutelyBHM
 import DateutilVerif.Proofs.RRuleWeeklyW
 import DateutilVerif.Proofs.RRuleMonthlyE
+import DateutilVerif.Proofs.RRuleNthWYearly
+import DateutilVerif.Proofs.RRuleNthWYM
+import DateutilVerif.Proofs.RRuleNthEYearly
+import DateutilVerif.Proofs.RRuleNthEYM
+import DateutilVerif.Proofs.RRuleWeeknoEYearly
 import DateutilVerif.Proofs.RRuleWeeklyE
 import DateutilVerif.Proofs.RRuleEDaily
 import DateutilVerif.Proofs.RRuleEHourly
@@ -205,5 +210,40 @@ theorem iter_eq_spec_supported (a : Args) (r : Rule) (h : construct a = .ok r) (
     obtain ⟨hf, ⟨hi, hv, hz⟩, hw, he, h3, h4, h5⟩ := hs
     exact ⟨n, by omega, by simp [Family.periodsPerTurn],
       iter_eq_spec_weekly_easter ⟨hf, hi, hv, hw, hz, someWith_elim he, h3, h4, untilOk_elim h5⟩ h n hr.1 hr.2⟩
+  | monthlyNthWeekno =>
+    obtain ⟨hf, ⟨hi, hv, hz⟩, he, hn, hw, hwn⟩ := hs
+    obtain ⟨wl, hwl, hne, hok⟩ := someWith_elim hwn
+    exact ⟨n, by omega, by simp [Family.periodsPerTurn],
+      iter_eq_spec_monthly_nth_weekno ⟨hf, hi, hv, hw, he, hz, someWith_elim hn, ⟨wl, hwl, hne, ⟨hok.1, hok.2⟩⟩⟩ h n hr⟩
+  | yearlyNthWeekno =>
+    obtain ⟨hf, ⟨hi, hv, hz⟩, he, hm, hn, hw, hwn⟩ := hs
+    obtain ⟨wl, hwl, hne, hok⟩ := someWith_elim hwn
+    exact ⟨n, by omega, by simp [Family.periodsPerTurn],
+      iter_eq_spec_yearly_nth_weekno ⟨hf, hi, hv, hw, he, hz, hm, someWith_elim hn, ⟨wl, hwl, hne, ⟨hok.1, hok.2⟩⟩⟩ h n hr⟩
+  | yearlyBymonthNthWeekno =>
+    obtain ⟨hf, ⟨hi, hv, hz⟩, he, hm, hn, hw, hwn⟩ := hs
+    obtain ⟨wl, hwl, hne, hok⟩ := someWith_elim hwn
+    exact ⟨n, by omega, by simp [Family.periodsPerTurn],
+      iter_eq_spec_yearly_bymonth_nth_weekno
+        ⟨hf, hi, hv, hw, he, hz, someWith_elim hm, someWith_elim hn, ⟨wl, hwl, hne, ⟨hok.1, hok.2⟩⟩⟩ h n hr⟩
+  | monthlyNthEaster =>
+    obtain ⟨hf, ⟨⟨hi, hv, hz⟩, hw, he⟩, hn⟩ := hs
+    exact ⟨n, by omega, by simp [Family.periodsPerTurn],
+      iter_eq_spec_monthly_nth_easter ⟨hf, hi, hv, hw, hz, someWith_elim hn, someWith_elim he⟩ h n hr.1 hr.2⟩
+  | yearlyNthEaster =>
+    obtain ⟨hf, ⟨⟨hi, hv, hz⟩, hw, he⟩, hm, hn⟩ := hs
+    exact ⟨n, by omega, by simp [Family.periodsPerTurn],
+      iter_eq_spec_yearly_nth_easter ⟨hf, hi, hv, hw, hz, hm, someWith_elim hn, someWith_elim he⟩ h n hr.1 hr.2⟩
+  | yearlyBymonthNthEaster =>
+    obtain ⟨hf, ⟨⟨hi, hv, hz⟩, hw, he⟩, hm, hn⟩ := hs
+    exact ⟨n, by omega, by simp [Family.periodsPerTurn],
+      iter_eq_spec_yearly_bymonth_nth_easter
+        ⟨hf, hi, hv, hw, hz, someWith_elim hm, someWith_elim hn, someWith_elim he⟩ h n hr.1 hr.2⟩
+  | yearlyWeeknoEaster =>
+    obtain ⟨hf, ⟨hi, hv, hz⟩, hp, hw, hwn, he⟩ := hs
+    obtain ⟨wl, hwl, hne, hok⟩ := someWith_elim hwn
+    exact ⟨n, by omega, by simp [Family.periodsPerTurn],
+      iter_eq_spec_yearly_weekno_easter
+        ⟨hf, hi, hv, hw, hz, hp, ⟨wl, hwl, hne, ⟨hok.1, hok.2⟩⟩, someWith_elim he⟩ h n hr.1 hr.2⟩
 
 end RRule
